@@ -200,6 +200,8 @@ const prelude = `
 (declare-datatypes ((Ref 0)) (((null) (obj (oid Int)) (fld (fbase Ref) (fidx Int)) (elt (ebase Ref) (eidx Int)) (ibox (ival Int)))))
 (declare-sort BSeq 0)
 (declare-fun tyof (Ref) Int)
+(declare-fun alen (Ref) Int)
+(declare-fun tagty (Int) Int)
 (define-fun parent ((r Ref)) Ref (ite ((_ is fld) r) (fbase r) (ite ((_ is elt) r) (ebase r) null)))
 (define-fun within ((r Ref) (x Ref)) Bool (and (not (= x null)) (or (= (parent r) x) (= (parent (parent r)) x) (= (parent (parent (parent r))) x))))
 (define-fun withineq ((r Ref) (x Ref)) Bool (and (not (= x null)) (or (= r x) (= (parent r) x) (= (parent (parent r)) x) (= (parent (parent (parent r))) x))))
@@ -252,14 +254,14 @@ var bseqGroup = axiomGroup{
 (assert (forall ((s BSeq) (i Int) (j Int) (k Int) (l Int)) (! (=> (and (<= 0 i) (<= i j) (<= j (blen s)) (<= 0 k) (<= k l) (<= l (- j i))) (= (bsub (bsub s i j) k l) (bsub s (+ i k) (+ i l)))) :pattern ((bsub (bsub s i j) k l)))))
 (assert (forall ((a BSeq) (b BSeq) (i Int) (j Int)) (! (=> (and (<= 0 i) (<= i j) (<= j (blen a))) (= (bsub (bcat a b) i j) (bsub a i j))) :pattern ((bsub (bcat a b) i j)))))
 (assert (forall ((a BSeq) (b BSeq) (i Int) (j Int)) (! (=> (and (<= (blen a) i) (<= i j) (<= j (+ (blen a) (blen b)))) (= (bsub (bcat a b) i j) (bsub b (- i (blen a)) (- j (blen a))))) :pattern ((bsub (bcat a b) i j)))))
-(assert (forall ((s BSeq) (i Int) (j Int) (k Int)) (! (=> (and (<= 0 i) (<= i j) (<= j k) (<= k (blen s))) (= (bcat (bsub s i j) (bsub s j k)) (bsub s i k))) :pattern ((bcat (bsub s i j) (bsub s j k))))))
+(assert (forall ((s BSeq) (i Int) (j Int) (j2 Int) (k Int)) (! (=> (and (= j j2) (<= 0 i) (<= i j) (<= j k) (<= k (blen s))) (= (bcat (bsub s i j) (bsub s j2 k)) (bsub s i k))) :pattern ((bcat (bsub s i j) (bsub s j2 k))))))
 (assert (forall ((a BSeq) (b BSeq) (i Int)) (! (= (bat (bcat a b) i) (ite (< i (blen a)) (bat a i) (bat b (- i (blen a))))) :pattern ((bat (bcat a b) i)))))
 (assert (forall ((s BSeq) (i Int) (j Int) (k Int)) (! (=> (and (<= 0 i) (<= 0 k) (< (+ i k) j) (<= j (blen s))) (= (bat (bsub s i j) k) (bat s (+ i k)))) :pattern ((bat (bsub s i j) k)))))
 (assert (forall ((s BSeq) (i Int)) (! (=> (and (<= 0 i) (< i (blen s))) (and (<= 0 (bat s i)) (<= (bat s i) 255))) :pattern ((bat s i)))))
 (assert (forall ((a (Array Int Int)) (o Int) (n Int)) (! (=> (>= n 0) (= (blen (seqOf a o n)) n)) :pattern ((seqOf a o n)))))
 (assert (forall ((a (Array Int Int)) (o Int) (n Int) (i Int)) (! (=> (and (<= 0 i) (< i n)) (= (bat (seqOf a o n) i) (select a (+ o i)))) :pattern ((bat (seqOf a o n) i)))))
 (assert (forall ((a (Array Int Int)) (o Int) (n Int) (i Int) (j Int)) (! (=> (and (<= 0 i) (<= i j) (<= j n)) (= (bsub (seqOf a o n) i j) (seqOf a (+ o i) (- j i)))) :pattern ((bsub (seqOf a o n) i j)))))
-(assert (forall ((a (Array Int Int)) (o Int) (n Int) (m Int)) (! (=> (and (>= n 0) (>= m 0)) (= (bcat (seqOf a o n) (seqOf a (+ o n) m)) (seqOf a o (+ n m)))) :pattern ((bcat (seqOf a o n) (seqOf a (+ o n) m))))))
+(assert (forall ((a (Array Int Int)) (o Int) (n Int) (p Int) (m Int)) (! (=> (and (= p (+ o n)) (>= n 0) (>= m 0)) (= (bcat (seqOf a o n) (seqOf a p m)) (seqOf a o (+ n m)))) :pattern ((bcat (seqOf a o n) (seqOf a p m))))))
 (assert (forall ((a (Array Int Int)) (i Int) (v Int) (o Int) (n Int)) (! (=> (or (< i o) (>= i (+ o n))) (= (seqOf (store a i v) o n) (seqOf a o n))) :pattern ((seqOf (store a i v) o n)))))
 (assert (forall ((a (Array Int Int)) (o Int) (n Int) (s BSeq) (i Int)) (! (= (select (splice a o n s) i) (ite (and (<= o i) (< i (+ o n))) (bat s (- i o)) (select a i))) :pattern ((select (splice a o n s) i)))))
 (assert (forall ((a (Array Int Int)) (o Int) (n Int) (s BSeq) (p Int) (m Int)) (! (=> (and (= (blen s) n) (<= o p) (<= 0 m) (<= (+ p m) (+ o n))) (= (seqOf (splice a o n s) p m) (bsub s (- p o) (- (+ p m) o)))) :pattern ((seqOf (splice a o n s) p m)))))
@@ -274,7 +276,7 @@ var bseqGroup = axiomGroup{
 (assert (forall ((v Int)) (! (=> (and (<= 0 v) (< v 18446744073709551616)) (= (unbe (be64 v)) v)) :pattern ((be64 v)))))
 (assert (forall ((v Int)) (! (=> (and (<= 0 v) (< v 65536)) (and (= (bat (be16 v) 0) (div v 256)) (= (bat (be16 v) 1) (mod v 256)))) :pattern ((be16 v)))))
 (assert (forall ((s BSeq)) (! (and (<= 0 (unbe s)) (=> (= (blen s) 1) (and (< (unbe s) 256) (= (unbe s) (bat s 0)))) (=> (= (blen s) 2) (and (< (unbe s) 65536) (= (unbe s) (+ (* 256 (bat s 0)) (bat s 1))))) (=> (= (blen s) 4) (< (unbe s) 4294967296)) (=> (= (blen s) 8) (< (unbe s) 18446744073709551616))) :pattern ((unbe s)))))
-(assert (forall ((s BSeq)) (! (=> (= (blen s) 2) (= (be16 (unbe s)) s)) :pattern ((unbe s)))))
+(assert (forall ((s BSeq)) (! (=> (= (blen s) 2) (= (be16 (unbe s)) s)) :pattern ((be16 (unbe s))))))
 (assert (forall ((v Int)) (! (and (= (blen (bbyte v)) 1) (=> (and (<= 0 v) (< v 256)) (= (bat (bbyte v) 0) v))) :pattern ((bbyte v)))))
 `,
 	symbols: []string{"blen", "bat", "bempty", "bcat", "bsub", "seqOf", "splice", "bzeros", "be16", "be32", "be64", "unbe", "bbyte"},
